@@ -57,9 +57,27 @@ func (s *Source) Close() {
 	s.handle.Close()
 }
 
+// The kernel strips an 802.1Q/802.1ad tag from a received frame before the socket
+// filter runs and hands the tag over out-of-band, so a tagged frame (of any VLAN
+// on a trunk port) looks like an untagged one to the filter and to the packet
+// processors. Such frames are not replies to the untagged probes: skip them.
 func (s *Source) ReadPacketData() ([]byte, *gopacket.CaptureInfo, error) {
-	data, ci, err := s.handle.ZeroCopyReadPacketData()
-	return data, &ci, err
+	for {
+		data, ci, err := s.handle.ZeroCopyReadPacketData()
+		if err == nil && vlanTagged(&ci) {
+			continue
+		}
+		return data, &ci, err
+	}
+}
+
+func vlanTagged(ci *gopacket.CaptureInfo) bool {
+	for _, a := range ci.AncillaryData {
+		if _, ok := a.(afp.AncillaryVLAN); ok {
+			return true
+		}
+	}
+	return false
 }
 
 func (s *Source) WritePacketData(pkt []byte) error {
